@@ -1081,3 +1081,86 @@ def realistic_passwords(t, count, name="Default"):
             if pw and len(pw) <= 21:
                 out.append(pw)
     return out
+
+
+# ---------------------------------------------------------------------------
+# wide synthetic rulesets: more than a thousand base structures (block sizes and thresholds of a queue sit there)
+
+def _wide_job(seed, flat=False):
+    import itertools
+    from . import worlds
+    from .tape import Tape
+    t = Tape(seed=seed)
+    labels = ["D1", "D2", "D3", "O1", "O2", "A1", "A2"]
+    pool = "dyadic" if t.chance(1, 2) else "decimal"
+    variables = {}
+    # half of the worlds have one probability group per variable (one pre-terminal per structure): the order is then the
+    # order of the base structures alone, and a block of them is used up completely before the next one is needed
+    for v in labels:
+        variables[v] = worlds.gen_variable(t, v, pool, max_groups=1 if flat else 3, max_group_size=2)
+        if v[0] == "A":
+            variables["C" + v[1:]] = worlds.gen_variable(t, "C" + v[1:], pool, max_groups=1 if flat else 2, max_group_size=1)
+    names = []
+    for k in (1, 2, 3, 4):
+        for combo in itertools.product(labels, repeat=k):
+            names.append("".join(combo))
+    S = t.between(1100, 2600)
+    names = t.shuffle(names)[:S]
+    # base probabilities: flat blocks with steps at round positions, or strictly falling
+    shape = t.draw(3)
+    if flat:
+        shape = 3       # no two pre-terminals of equal probability: the order is strict all the way down
+    step_at = t.choice([1000, 1000, 512, 2000, S // 2])
+    base = []
+    for i, nm in enumerate(names):
+        if shape == 0:
+            p = 9e-4 if i < step_at else 5e-4 * 0.5
+        elif shape == 1:
+            p = (2 * S - i) / float(S * S * 2)
+        elif shape == 3:
+            p = 1.0 / (997.0 + 13 * i + (i * i % 7))
+        else:
+            p = [8e-4, 4e-4, 2e-4, 1e-4][min(3, i * 4 // S)]
+        base.append([nm, repr(p)])
+    spec = {"kind": "syn", "pool": pool, "encoding": "utf-8", "uuid": "00000000-0000-4000-8000-000000000888",
+            "vars": variables, "base": base, "omen": worlds.TRIVIAL_OMEN, "omen_prob": None, "omen_keyspace": None}
+    wr = scratch.fresh_disk()
+    rdir = os.path.join(wr, "Rules", "R")
+    worlds.write_ruleset(spec, rdir)
+    ref = RefRuleset(rdir)
+    nlang = ref.language_size()
+    out = {"seed": seed, "structures": S, "language": nlang, "problem": None, "pops": 0}
+    if nlang > 400000:
+        out["void"] = "language too large"
+        return out
+    with guesser.streams():
+        pcfg = guesser.load(rdir)
+        hist = guesser.exhaust(pcfg, max_pops=nlang + 1000, expand=False)
+    overflow = bool(hist and hist[-1].get("overflow"))
+    pops = [(h["pt"], h["prob"], h["base_prob"]) for h in hist if not h.get("overflow")]
+    out["pops"] = len(pops)
+    pb = judge_prefix(ref, pops)
+    if pb:
+        out["problem"] = pb
+    elif overflow:
+        out["problem"] = ("C02", "does_not_terminate", {"pops": len(pops), "language": nlang})
+    elif len(pops) != nlang:
+        out["problem"] = ("C02", "missing_at_exhaustion", {"emitted": len(pops), "language": nlang, "base_structures": S})
+    return out
+
+
+def wide_phase(prop, tier, base_seed):
+    out = {"wide_rulesets": 0, "wide_ruleset_base_structures_max": 0, "wide_ruleset_pops": 0, "violations": []}
+    jobs = [(base_seed * 6469 + 77 + i, i % 2 == 0) for i in range(2 if tier == "quick" else 8)]
+    for r in _fan_out(_wide_job, jobs):
+        if r.get("void"):
+            continue
+        out["wide_rulesets"] += 1
+        out["wide_ruleset_base_structures_max"] = max(out["wide_ruleset_base_structures_max"], r["structures"])
+        out["wide_ruleset_pops"] += r["pops"]
+        pb = r["problem"]
+        if pb and pb[0] == prop:
+            out["violations"].append({"seed": r["seed"], "tape": [], "violation": {
+                "property": prop, "kind": "wide_ruleset:" + pb[1], "key": None,
+                "detail": dict(pb[2], base_structures=r["structures"], language=r["language"])}, "case": None})
+    return out
